@@ -66,6 +66,19 @@ import re as _re
 _SAFE = _re.compile(r"\A(?!\.{1,2}\Z)[A-Za-z0-9._~@-]*\Z")   # URL-safe text that is not a dot segment either ('.' / '..' would resolve away)
 
 
+def _unsafe_field(rec):
+    """'<RecordType>.<field>' of the first str field that is not URL-safe text (or is a dot segment), else None: the open finding about
+    unquoted record fields is identified per record type and field, so that a *new* way of getting an unsafe field is still reported"""
+    if rec is None:
+        return None
+    names = getattr(rec, "__slots__", None) or getattr(rec, "_fields", ())
+    for n in names:
+        v = getattr(rec, n, None)
+        if isinstance(v, str) and not _SAFE.match(v):
+            return "%s.%s" % (type(rec).__name__, n)
+    return None
+
+
 def _eq(a, b):
     try:
         return a == b
@@ -98,7 +111,7 @@ def eval_facebook(case, out):
         fields = [getattr(rec, s) for s in rec.__slots__ if s in ("handle", "parent_handle", "group_handle")]
         route_word = any(f in FB_ROUTES or (f or "").endswith(".php") for f in fields if f)
         unsafe = any(isinstance(getattr(rec, s), str) and not _SAFE.match(getattr(rec, s)) for s in rec.__slots__)
-        relname = "C19/facebook/roundtrip/unsafe-chars" if unsafe else (
+        relname = "C19/facebook/roundtrip/unsafe-chars/%s" % _unsafe_field(rec) if unsafe else (
             "C19/facebook/roundtrip/route-word-handle/%s" % type(rec).__name__ if route_word else "C19/facebook/roundtrip/%s" % type(rec).__name__)
         out.append((relname, "parse_facebook_url(%r)=%r; its .url %r re-parses to %r" % (url, rec, curl, again)))
     return True
@@ -130,7 +143,7 @@ def eval_youtube(case, out):
             route = any(n and (n.lower() in YT_ROUTES or n.startswith("@") or "/" in n) for n in names)
             fields = [x for x in (tuple(r1) if r1 is not None else ()) if isinstance(x, str)]
             unsafe = any(not _SAFE.match(x) for x in fields)
-            out.append(("C19/youtube/roundtrip/route-word-handle/%s" % type(r1).__name__ if route else "C19/youtube/roundtrip/unsafe-chars" if unsafe else "C19/youtube/roundtrip",
+            out.append(("C19/youtube/roundtrip/route-word-handle/%s" % type(r1).__name__ if route else "C19/youtube/roundtrip/unsafe-chars/%s" % _unsafe_field(r1) if unsafe else "C19/youtube/roundtrip",
                         "parse_youtube_url(%r)=%r but parse(normalize_youtube_url=%r)=%r" % (url, r1, norm, r2)))
         if ok3 and n2 != norm:
             names = [getattr(r1, "name", None)] if (ok1 and r1 is not None) else []
@@ -138,7 +151,7 @@ def eval_youtube(case, out):
             fields = [x for x in (tuple(r1) if (ok1 and r1 is not None) else ()) if isinstance(x, str)]
             unsafe = any(not _SAFE.match(x) for x in fields)
             out.append(("C19/youtube/normalize-idempotent/route-word-handle" if route else
-                        "C19/youtube/normalize-idempotent/unsafe-chars" if unsafe else "C19/youtube/normalize-idempotent",
+                        "C19/youtube/normalize-idempotent/unsafe-chars/%s" % _unsafe_field(r1) if unsafe else "C19/youtube/normalize-idempotent",
                         "normalize_youtube_url(%r)=%r, again %r" % (url, norm, n2)))
     return ok and rec is not None
 
@@ -208,7 +221,7 @@ def eval_google(case, out):
             ok3, again = _guard(out, "google", "parse_google_drive_url", G.parse_google_drive_url, curl)
             if ok3 and not _eq(again, rec):
                 out.append(("C19/google/roundtrip/route-word-handle/%s" % type(rec).__name__ if rec.id in ("pub", "e", "d") else
-                            "C19/google/roundtrip/unsafe-chars" if not _SAFE.match(rec.id) else "C19/google/roundtrip", "parse_google_drive_url(%r)=%r; its .url %r re-parses to %r" % (url, rec, curl, again)))
+                            "C19/google/roundtrip/unsafe-chars/%s" % _unsafe_field(rec) if not _SAFE.match(rec.id) else "C19/google/roundtrip", "parse_google_drive_url(%r)=%r; its .url %r re-parses to %r" % (url, rec, curl, again)))
             _guard(out, "google", "get_export_url", rec.get_export_url)
     return ok and rec is not None
 
